@@ -1,11 +1,11 @@
 # Copyright 2024-2025 IBM Corporation
 
 import copy
-import re
 
 import aiu_trace_analyzer.logger as aiulog
-from aiu_trace_analyzer.types import TraceEvent, GlobalIngestData
+from aiu_trace_analyzer.types import TraceEvent
 from aiu_trace_analyzer.pipeline import AbstractContext, AbstractHashQueueContext
+from aiu_trace_analyzer.pipeline.tools import PipelineContextTool
 
 
 class QueueingCounterContext(AbstractHashQueueContext):
@@ -98,8 +98,7 @@ def queueing_counter(event: TraceEvent, queue_coll: AbstractContext, keyval: dic
     keep_prep = keyval.get("keep_prep", False)
 
     if event["ph"] in "X":
-        dialect = GlobalIngestData.get_dialect(event["args"]["jobhash"])
-        if re.search(dialect.get("acc_compute_prep"), event["name"]) is None:
+        if not PipelineContextTool.is_category(event, "acc_compute_prep"):
             return revents
 
         if keep_prep:
